@@ -280,6 +280,7 @@ func main() {
 	r.Extra("failing_loop_programs", nfailing)
 	r.Extra("monitor_events", map[string]int64{"malloc": rn.NMalloc, "free": rn.NFree, "retain": rn.NRetain, "release": rn.NRelease})
 	r.Extra("programs_compiled", rn.Programs)
+	r.Extra("worker_go_heap_peak_MB", rn.WorkerPeakMB)
 	r.Extra("hangs_not_reproduced_alone", rn.UnreproducedHangs)
 	if rn.Capped == "" && (rn.NMalloc == 0 || rn.NFree == 0 || rn.NRetain == 0) {
 		r.HarnessError("vacuous: the monitor saw malloc=%d free=%d retain=%d release=%d", rn.NMalloc, rn.NFree, rn.NRetain, rn.NRelease)
